@@ -90,6 +90,9 @@ pub fn build(prop: &str, seed: u64, hist: u64, rng: &mut Rng, ids: &[String]) ->
             if sub < 30 {
                 profile = "corrupt".into();
                 fault_cfg.insert("corrupt".into(), 400);
+                if rng.chance(50) {
+                    fault_cfg.insert("torn_store".into(), 150);
+                }
             } else if sub < 42 {
                 // honest peers, boundary-valued service results at every consuming position
                 profile = "odd".into();
